@@ -453,6 +453,37 @@ func c07CheckText(r *Run, a *big.Int) bool {
 			}
 		}
 	}
+	// the builtin text conversions applied to every representation of the value (a literal such as -2**63 reaches them as a
+	// big int only; the result of arithmetic reaches them as a machine word)
+	{
+		sign := ""
+		mag := new(big.Int).Abs(a)
+		if a.Sign() < 0 {
+			sign = "-"
+		}
+		want := map[string]string{"hex": sign + "0x" + mag.Text(16), "oct": sign + "0o" + mag.Text(8), "bin": sign + "0b" + mag.Text(2), "str": a.String(), "repr": a.String()}
+		for i := range ao {
+			if an[i] == "Bool" {
+				continue
+			}
+			for _, fn := range []string{"hex", "oct", "bin", "str", "repr"} {
+				f := c07Builtin(fn)
+				var res py.Object
+				var err error
+				pclass, _, _ := Protect(func() { res, err = py.Call(f, py.Tuple{ao[i]}, nil) })
+				got := ""
+				if s, isStr := res.(py.String); isStr {
+					got = string(s)
+				}
+				if pclass != "" || err != nil || got != want[fn] {
+					if !r.Mismatch(&Case{Kind: "c07api", Sig: "api:builtin-" + fn + ":" + an[i], Args: map[string]interface{}{"op": "builtin-" + fn, "a": a.String(), "ra": an[i]},
+						Expected: want[fn], Actual: got + pclass, Detail: fn + "(" + a.String() + ") with the value held as " + an[i]}) {
+						ok = false
+					}
+				}
+			}
+		}
+	}
 	for _, base := range []int{2, 8, 10, 16, 36, 0} {
 		var text string
 		sign := ""
@@ -483,7 +514,41 @@ func c07CheckText(r *Run, a *big.Int) bool {
 			}
 		}
 	}
+	// spellings that are not integer literals: a sign after the base prefix, a doubled sign, a prefix of another base, inner space
+	if a.Sign() != 0 {
+		mag := new(big.Int).Abs(a)
+		for _, t := range []struct {
+			text string
+			base int
+		}{{"-0x-" + mag.Text(16), 16}, {"0x+" + mag.Text(16), 16}, {"+-" + mag.Text(10), 10}, {"--" + mag.Text(10), 10}, {"-+" + mag.Text(10), 0}, {"0b-" + mag.Text(2), 2}, {"0o+" + mag.Text(8), 0},
+			{"- " + mag.Text(10), 10}, {mag.Text(10) + " " + mag.Text(10), 10}, {"0x" + mag.Text(16), 10}, {"0b" + mag.Text(2), 8}, {"-", 10}, {"0x", 16}, {"0x", 0}, {mag.Text(10) + "-", 10}} {
+			var res py.Object
+			var err error
+			pclass, _, _ := Protect(func() { res, err = py.IntFromString(t.text, t.base) })
+			cls, _ := ErrClass(err)
+			if pclass != "" || cls != "ValueError" {
+				act := pclass + cls
+				if err == nil && res != nil {
+					act = Enc(res)
+				}
+				if !r.Mismatch(&Case{Kind: "c07api", Sig: fmt.Sprintf("api:parse-invalid:base%d", t.base), Args: map[string]interface{}{"op": "parse-invalid", "text": t.text, "base": t.base, "a": a.String()},
+					Expected: "ValueError", Actual: act, Detail: fmt.Sprintf("int(%q, %d)", t.text, t.base)}) {
+					ok = false
+				}
+			}
+		}
+	}
 	return ok
+}
+
+var c07BuiltinCtx py.Context
+
+// c07Builtin returns a function of the builtins module (of one context kept for the whole run)
+func c07Builtin(name string) py.Object {
+	if c07BuiltinCtx == nil {
+		c07BuiltinCtx, _ = NewCtx(nil, nil)
+	}
+	return c07BuiltinCtx.Store().Builtins.Globals[name]
 }
 
 // ---------------------------------------------------------------- domain
@@ -828,6 +893,22 @@ func init() {
 				return "", "", nil
 			}
 			return "api:" + op, fmt.Sprint(res, err, pclass), nil
+		case strings.HasPrefix(op, "builtin-"):
+			a := get("a")
+			fn := strings.TrimPrefix(op, "builtin-")
+			pclass, _, _ = Protect(func() { res, err = py.Call(c07Builtin(fn), py.Tuple{rep(a, ra)}, nil) })
+			if s, ok := res.(py.String); ok && string(s) == c.Expected && err == nil && pclass == "" {
+				return "", "", nil
+			}
+			return "api:" + op, fmt.Sprint(res, err, pclass), nil
+		case op == "parse-invalid":
+			text, _ := c.Args["text"].(string)
+			base, _ := c.Args["base"].(float64)
+			pclass, _, _ = Protect(func() { res, err = py.IntFromString(text, int(base)) })
+			if cls, _ := ErrClass(err); cls == "ValueError" && pclass == "" {
+				return "", "", nil
+			}
+			return "api:parse-invalid", fmt.Sprint(res, err, pclass), nil
 		case op == "parse":
 			text, _ := c.Args["text"].(string)
 			base, _ := c.Args["base"].(float64)
